@@ -7,12 +7,20 @@
         computed without touching a nil error (parseRuleError), is Fatal and points at the error line;
         every other entry carries a complete rule;
     (3) the relaxed descent terminates on every forest (C19_relaxed_total, Properties/C19.v);
-    (4) reported lines lie inside the file: Properties below ([C02_lines_*]).
+    (4) reported lines lie inside the file ([C02_lines_strict], [C02_lines_relaxed]): if the coordinates yaml.v3
+        reported are inside the file (executable check [docs_fit], evaluated on every correspondence case; it fails
+        exactly on the open known finding C02-lone-cr) then every line pint's parser hands on — the line of the
+        yaml/parse problem of every error entry, the line range of every complete rule, the line extent of every
+        field, label and annotation, incl. rules found in YAML embedded in literal block scalars — satisfies
+        1 <= line <= TotalLines and first <= last; the position oracle enters through [plines_inside], which is
+        PROVED of the executable model of NewPositionRange used by the correspondence runs ([C02_lines_oracle]),
+        together with the absence of index panics in that loop ([C02_positions_total]).
     The runtime remainder (panics/hangs inside yaml.v3, the PromQL parser, text/template, the opaque checks,
     the renderers' string handling) cannot be excluded by a model: PARTIAL, covered by executing the real
     in-process pipeline and the real binary with all four renderers on every generated/mutated/fixture file. *)
 From Coq Require Import List String Ascii Arith Bool NArith.
-From PintV Require Import Common.Bytes Model.Yaml Model.Parser Model.Routing Proofs.C19_relaxed Proofs.C02_wellformed.
+From PintV Require Import Common.Bytes Model.Yaml Model.YamlPosLines Model.Parser Model.YamlFits Model.Routing Run.C19
+  Proofs.C19_relaxed Proofs.C02_wellformed Proofs.C02_lines Proofs.C02_poslines.
 Import ListNotations.
 Open Scope string_scope.
 Open Scope list_scope.
@@ -61,6 +69,69 @@ Theorem C02_routing_total_relaxed :
 Proof. intros. eapply routing_total; [eapply relaxed_rules_wellformed; eassumption|eassumption]. Qed.
 Print Assumptions C02_routing_total_relaxed.
 
+
+(** ---- (4) reported lines lie inside the file ---- *)
+
+(** What the theorems need of diags.NewPositionRange(lines, node, minColumn).Lines(): it starts at the node's line and
+    ends at the node's line or at a line of [lines] ([elen]: a final empty string produced by splitting a text that
+    ends with a line break is not a line). *)
+Definition plines_inside (plines : list string -> node -> nat -> nat * nat) : Prop :=
+  forall lines n mc, 1 <= n_line n -> 1 <= n_col n -> 1 <= mc ->
+    n_line n <= fst (plines lines n mc) /\ fst (plines lines n mc) <= snd (plines lines n mc) /\
+    snd (plines lines n mc) <= Nat.max (n_line n) (elen lines).
+
+(** The statement about one entry: the yaml/parse problem of an error entry points inside the file; an entry without
+    error carries a rule whose line range and every field extent are inside the file ([body_ok], Proofs/C02_lines.v);
+    so are the group labels it inherits. *)
+Definition entry_inside (T : nat) (e : entry) : Prop :=
+  (forall p, parse_rule_error e = Ok p -> (1 <= p_first p /\ p_first p <= T) /\ (1 <= p_last p /\ p_last p <= T)) /\
+  (has_error e = false -> body_ok T (e_rule e)) /\
+  (forall m, e_glabels e = Some m -> ymap_ok T m).
+
+Theorem C02_lines_strict :
+  forall plines metric_ok lname_ok lvalue_ok dur_ok int_ok thanos all_lines ds yerr e,
+    plines_inside plines ->
+    docs_fit (List.length all_lines) ds = true ->
+    (forall pe, yerr = Some pe -> 1 <= pe_line pe /\ pe_line pe <= List.length all_lines) ->
+    In e (read_rules (parse_strict plines metric_ok lname_ok lvalue_ok dur_ok int_ok thanos all_lines ds yerr)) ->
+    entry_inside (List.length all_lines) e.
+Proof.
+  intros until e. intros Hp Hd Hy Hin.
+  eapply entries_report_inside; [|apply strict_rules_wellformed|exact Hin].
+  apply strict_lines_inside; [exact Hp|apply le_n|exact Hy|apply docs_fit_sound; exact Hd].
+Qed.
+Print Assumptions C02_lines_strict.
+
+Theorem C02_lines_relaxed :
+  forall plines metric_ok lname_ok lvalue_ok all_lines ds yerr f e,
+    plines_inside plines ->
+    docs_fit (List.length all_lines) ds = true ->
+    (forall pe, yerr = Some pe -> 1 <= pe_line pe /\ pe_line pe <= List.length all_lines) ->
+    parse_relaxed plines metric_ok lname_ok lvalue_ok all_lines ds yerr = Some f ->
+    In e (read_rules f) ->
+    entry_inside (List.length all_lines) e.
+Proof.
+  intros until e. intros Hp Hd Hy Hf Hin.
+  eapply entries_report_inside; [|eapply relaxed_rules_wellformed; exact Hf|exact Hin].
+  eapply (relaxed_lines_inside plines metric_ok lname_ok lvalue_ok lvalue_ok (fun _ => true));
+    [exact Hp|apply le_n|exact Hy|apply docs_fit_sound; exact Hd|exact Hf].
+Qed.
+Print Assumptions C02_lines_relaxed.
+
+(** The executable model of NewPositionRange's line extent (Model/YamlPosLines.v, the oracle of every correspondence
+    run) satisfies [plines_inside] ... *)
+Theorem C02_lines_oracle : plines_inside plines_run.
+Proof. exact plines_run_ok. Qed.
+Print Assumptions C02_lines_oracle.
+
+(** ... and its loop never indexes the lines or a line out of range ([None] = the Go code would panic) for a node
+    whose line and column count from 1 and a minimum column >= 1 (every call site passes key column + 2 or 1). *)
+Theorem C02_positions_total :
+  forall lines n mc, 1 <= n_line n -> 1 <= n_col n -> 1 <= mc ->
+    pos_lines lines (n_value n) (n_line n) (n_col n) mc <> None.
+Proof. exact pos_lines_total. Qed.
+Print Assumptions C02_positions_total.
+
 (** Non-vacuity / regression of the design-session witness: the strict file with rules `- {}`, `- ~`
     (corpus/C02/empty_rules.yaml) yields two error rules (not the zero Rule that made pint dereference nil),
     both routed to the error check. *)
@@ -77,3 +148,9 @@ Example C02_nonvacuous :
                  match parse_rule_error e with Ok p => Some (p_first p) | Crash _ => None end)) (read_rules f)
   = [(true, ["yaml/parse"], Some 4); (true, ["yaml/parse"], Some 5)].
 Proof. vm_compute. reflexivity. Qed.
+
+(** Non-vacuity of (4): the hypothesis holds of that forest in a 5-line file and fails in a 4-line one (the rule
+    `- ~` sits on line 5): [docs_fit] is a real check. *)
+Example C02_lines_nonvacuous :
+  docs_fit 5 [(ex_empty_rules, 5)] = true /\ docs_fit 4 [(ex_empty_rules, 4)] = false.
+Proof. vm_compute. split; reflexivity. Qed.
